@@ -1,5 +1,6 @@
 """Frame (effect) contracts, DESIGN 2.6: which files each public entry point may write.  `path` is a regular expression over the text of the
-written path expression (after resolving local aliases and write-wrapper arguments), `guard` one over the enclosing conditions."""
+written path expression (after resolving local aliases and write-wrapper arguments), `guard` one over the enclosing conditions.
+Names of LOCAL variables are written as \\w+ (a renamed local must not raise an alarm); attribute and parameter names are spelled out."""
 T = 'phylib/io/traces.py'
 M = 'phylib/io/model.py'
 READERS = {'klass': [(T, 'FlatEphysReader.__init__'), (T, 'MtscompEphysReader.__init__'), (T, 'ArrayEphysReader.__init__'), (T, 'NpyEphysReader.__init__')]}
@@ -10,7 +11,7 @@ ASSUME = ['A-PURE: the pure list of pyvc/effects.py (NumPy/SciPy computations, l
           'A-DISPATCH: get_ephys_reader constructs one of Flat/Mtscomp/Array/Npy readers (the four classes _get_ephys_constructor can return)']
 
 LOAD_FRAME = [
-    {'what': 'spike-cluster copy, only when the spike-cluster file is missing', 'path': r"self\.dir_path / 'spike_clusters\.npy'", 'guard': r'path is None', 'function': r'TemplateModel\._load_spike_clusters'},
+    {'what': 'spike-cluster copy, only when the spike-cluster file is missing', 'path': r"self\.dir_path / 'spike_clusters\.npy'", 'guard': r'\w+ is None', 'function': r'TemplateModel\._load_spike_clusters'},
     {'what': 'inverse whitening matrix, only when its file is missing (IOError from _load_wmi)', 'path': r"self\.dir_path / 'whitening_mat_inv\.npy'", 'guard': r'except IOError', 'function': r'TemplateModel\._compute_wmi'},
 ]
 
@@ -48,9 +49,9 @@ FRAMES['C13'] = [
          must_precede={'test': r'self\.out_path\.resolve\(\) == self\.dir_path\.resolve\(\)', 'raises': 'IOError'},
          frame=[{'what': 'a file below the output directory', 'path': r'self\.out_path( / .+|\.joinpath\(.+\))?'},
                 {'what': 'an existing file of the output directory (dtype compression)', 'path': r"next\(self\.out_path\.glob\(.+\)\)"},
-                {'what': 'renaming files of the output directory with the label', 'path': r'for-each\(self\.out_path\.glob\(pattern\)\)', 'function': r'EphysAlfCreator\.rename_with_label'},
-                {'what': "deleting the sorter's temporary whitened-data file", 'path': r'self\.dir_path\.joinpath\(fn0\)', 'function': r'EphysAlfCreator\.rm_files'}]
-               + _dirs(r'self\.out_path / fn1') + SUBSET_FRAME + LOAD_OF_OUTPUT,
+                {'what': 'renaming files of the output directory with the label', 'path': r'for-each\(self\.out_path\.glob\(\w+\)\)', 'function': r'EphysAlfCreator\.rename_with_label'},
+                {'what': "deleting the sorter's temporary whitened-data file", 'path': r'self\.dir_path\.joinpath\(\w+\)', 'function': r'EphysAlfCreator\.rm_files'}]
+               + _dirs(r'self\.out_path / \w+') + SUBSET_FRAME + LOAD_OF_OUTPUT,
          **SUBSET),
 ]
 ASSUME += ['A-ALF: FILE_DELETES lists only temp_wh.dat (checked by the bounded stand-in); rename_with_label patterns only match files of the output directory',
